@@ -361,6 +361,12 @@ let lp_main guard path tablepath needpath =
                | DecOk d -> if str_dec d <> str_dec dec then diverge c.lid "decode" (trunc (str_dec d)) (trunc (str_dec dec))
                | DUnsupported -> ());
               if ipanic then oracle c.lid "recv-panic" "handleIncomingFrame panicked on this frame sequence";
+              (* heap allocated by the call, in proportion to the frame: generous constant for decoding and logging *)
+              List.iter (fun l -> match split_ws l with
+                | ["AL"; b] -> let bytes = int_of_string b and flen = List.length frame in
+                    if bytes > 65536 + 64 * flen then
+                      oracle c.lid "alloc-out-of-proportion" (Printf.sprintf "handleIncomingFrame allocated %d bytes for a frame of %d bytes" bytes flen)
+                | _ -> ()) o_lines;
               if (dec_l = Some "DEC PANIC") then oracle c.lid "decode-panic" "spec.ReadPacket panicked on this frame";
               (* a frame that fails to decode changes nothing *)
               (match dec, ist with
@@ -384,7 +390,7 @@ let lp_main guard path tablepath needpath =
             pending := Some ("RECV", [], check))
       | "ORDER" :: _ -> ()
       | ["END"] -> finish_case ()
-      | x :: _ when (x = "FR" || x = "FO" || x = "FZ" || x = "OZ" || x = "NS" || x = "SP" || x = "DEC" || x = "DL" || x = "ST" || x = "RP") ->
+      | x :: _ when (x = "FR" || x = "FO" || x = "FZ" || x = "OZ" || x = "NS" || x = "SP" || x = "DEC" || x = "DL" || x = "ST" || x = "RP" || x = "AL") ->
           obs := line :: !obs
       | [] -> ()
       | x :: _ when String.length x > 0 && x.[0] = '#' -> ()
